@@ -44,6 +44,7 @@ class Interp:
         self.loading = set()
         self.trace = []
         self.problems = []       # definite run-time failures found while interpreting
+        self.memoised = []       # (Func, typed, where) for every function wrapped in functools.cache / lru_cache
         self.stencils = []       # every StencilDef created
         self.kernels = []        # every Kernel created
         self.call_depth = 0
@@ -212,6 +213,14 @@ class Interp:
                 return self.run_stencil(val, st, ms)
             if p == "numba.njit":
                 return Njit(val, {})
+            if p in ("functools.cache", "functools.lru_cache") and isinstance(val, Func):
+                # a memoised function is analysed as its body (what the call for a fresh key computes); that the memo key
+                # determines the result is a separate obligation (props.common.memo_key_rule)
+                self.memoised.append((val, False, self.where(st, ms)))
+                return val
+        if isinstance(d, Opaque) and d.tag == "memo-decorator" and isinstance(val, Func):
+            self.memoised.append((val, bool(d.info.get("typed")), self.where(st, ms)))
+            return val
         if isinstance(d, Opaque) and d.tag == "njit-decorator":
             return Njit(val, d.info)
         if isinstance(d, Opaque) and d.tag == "builtin" and d.info == "staticmethod":
@@ -823,6 +832,10 @@ class Interp:
         if isinstance(obj, PW) or is_num(obj):
             if attr in ("real",):
                 return obj
+            if attr == "dtype" and isinstance(obj, PW) and getattr(self.ext, "working_precision", None) is not None:
+                # floating-point scalars of the analysed objects are held in the working precision (real_t(...) casts are
+                # identities of the abstraction); a Python float has no .dtype, which the abstraction does not distinguish
+                return self.ext.working_precision
         raise Unsupported("attribute %s of %r at %s" % (attr, obj, self.where(e, ms)))
 
     def bind(self, inst, v):
